@@ -101,7 +101,12 @@ class HCreateSolution(Handler):
         if exc is not None:
             et = type(exc).__name__
             if expect and expect.get('must') == 'accept':
-                M.violate(['C05'], 'SOLN', f'C05:feasible_request_refused:{spec}:{skind}:{et}',
+                mech = f'C05:feasible_request_refused:{spec}:{skind}:{et}'
+                if spec == 'conc+quantity' and n >= 2 and et == 'ValueError':
+                    # the other face of the absolute residual test (KF31): a consistent over-determined request whose
+                    # rows have large magnitudes (hundreds of grams) misses the 1e-6 absolute residual by rounding
+                    mech = f'C05:overdetermined_consistent_request_refused:{skind}:ValueError'
+                M.violate(['C05'], 'SOLN', mech,
                           {'solutes': [s.name for s in solutes], 'solvent': H1._short(solvent), 'kwargs': kw,
                            'exc': repr(exc)[:300], 'tag': expect.get('tag')})
             elif not H1.is_value_error(exc):
